@@ -306,7 +306,7 @@ func cmdCheck(id string, opts *RunOpts) int {
 		r := w.verifyContract(c, opts)
 		results = append(results, r)
 		for _, ob := range r.Obs {
-			if hasTag(ob.Tags, id) || ob.Kind == "cover" {
+			if hasTag(ob.Tags, id) || ob.Kind == "cover" || ob.Kind == "seqcover" {
 				all = append(all, ob)
 			}
 		}
@@ -389,10 +389,15 @@ func buildReport(id string, w *World, opts *RunOpts, results []*FuncResult, all 
 	feasible := map[string]int{}
 	var failedNamed []*Named
 	for _, n := range named {
-		if n.Kind == "cover" {
+		if n.Kind == "cover" || n.Kind == "seqcover" {
 			for _, q := range n.Queries {
 				if q.Res.Status == "sat" {
 					feasible[q.Func]++
+				}
+				if q.Expect == "notunsat" && q.Res.Status == "unsat" {
+					// the contract's own assumptions (requires, invariant, library axioms) are contradictory
+					rep.lines = append(rep.lines, "ENGINE-ERROR: vacuity: "+n.Name+" — the assumptions of this contract are unsatisfiable")
+					rep.Exit = 2
 				}
 			}
 			continue
@@ -576,6 +581,9 @@ func buildReport(id string, w *World, opts *RunOpts, results []*FuncResult, all 
 			"shapes_excluded_by_requires": r.Stats.ShapesSkipped, "paths": r.Stats.Paths, "feasible_paths": feasible[r.Con.Func],
 			"calls_by_contract": r.Stats.ByContract, "calls_inlined": r.Stats.Inlined, "calls_modelled": r.Stats.Modelled, "calls_havocked": r.Stats.Havocked,
 		})
+		for _, a := range r.Assumption {
+			addAssume(a)
+		}
 		for k := range r.Stats.Modelled {
 			addAssume("assumed contract (engine model) of " + k)
 		}
@@ -607,7 +615,7 @@ func buildReport(id string, w *World, opts *RunOpts, results []*FuncResult, all 
 	// samples
 	cnt := 0
 	for _, n := range named {
-		if n.Kind == "cover" || cnt >= 6 {
+		if n.Kind == "cover" || n.Kind == "seqcover" || cnt >= 6 {
 			continue
 		}
 		q := n.Queries[len(n.Queries)/2]
@@ -625,7 +633,7 @@ func buildReport(id string, w *World, opts *RunOpts, results []*FuncResult, all 
 	var namedList []string
 	knownObls := []string{}
 	for _, n := range named {
-		if n.Kind == "cover" || n.Kind == "canary" {
+		if n.Kind == "cover" || n.Kind == "seqcover" || n.Kind == "canary" {
 			continue
 		}
 		if f, ok := wholeKnown[n.Name]; ok {
